@@ -1,7 +1,7 @@
 //! Timer implementation for the Sentinel.
 //! It supports a cached timer and a real-time timer from `unix_timestamp_nanos`.
 
-use lazy_static::lazy_static;
+use crate::vsync::lazy_static;
 use time::{macros::format_description, Duration, OffsetDateTime};
 
 lazy_static! {
@@ -174,8 +174,8 @@ pub mod verif_clock {
 // provide cached time by a ticker
 pub mod ticker {
     use super::*;
-    use lazy_static::lazy_static;
-    use std::sync::atomic::{AtomicU64, Ordering};
+    use crate::vsync::lazy_static;
+    use crate::vsync::atomic::{AtomicU64, Ordering};
 
     lazy_static! {
         static ref NOW_IN_MS: AtomicU64 = AtomicU64::new(0);
